@@ -202,23 +202,23 @@ def codec_family(ctx, n_quick, n_thorough, mc_cfgs_quick=("default",), extra_cov
 
 
 def plan_C01(ctx):
-    return codec_family(ctx, 6000, 200000)
+    return codec_family(ctx, 6000, 100000)
 
 
 def plan_C02(ctx):
-    return codec_family(ctx, 6000, 200000)
+    return codec_family(ctx, 6000, 100000)
 
 
 def plan_C05(ctx):
-    return codec_family(ctx, 6000, 200000)
+    return codec_family(ctx, 6000, 100000)
 
 
 def plan_C09(ctx):
-    return codec_family(ctx, 6000, 200000)
+    return codec_family(ctx, 6000, 100000)
 
 
 def plan_C13(ctx):
-    return codec_family(ctx, 6000, 200000)
+    return codec_family(ctx, 6000, 100000)
 
 
 def plan_C16(ctx):
@@ -287,7 +287,7 @@ def plan_C16(ctx):
 
 
 def plan_C14(ctx):
-    return codec_family(ctx, 6000, 200000)
+    return codec_family(ctx, 6000, 100000)
 
 
 def decode_family(ctx, kinds, n_quick, n_thorough, with_codec_sessions=False):
